@@ -1369,3 +1369,19 @@ def all_arrivals_visit(body, flow, target_bb, via_bb, loop_visits=2):
                 return False
             last_t = i
     return n > 0
+
+
+def all_arrivals_via_edge(body, flow, target_bb, edges, loop_visits=2):
+    """Every flag/variant-feasible path reaching target_bb took one of the CFG edges in `edges` [(a, b), ..] before."""
+    edges = set(edges)
+    if any(len(body.pred[b]) == 1 and body.dominates(b, target_bb) for (a, b) in edges):
+        return True
+    n = 0
+    for kind, path, know in sensitive_paths(body, flow, loop_visits):
+        for i, bb in enumerate(path):
+            if bb != target_bb:
+                continue
+            n += 1
+            if not any((path[j], path[j + 1]) in edges for j in range(i)):
+                return False
+    return n > 0
